@@ -597,7 +597,10 @@ func join(a *VC, b *VC) {
 func (s *Sched) apply(t int) (Outcome, string) {
 	th := &s.th[t]
 	k, a := th.pendK, th.pendA
-	if th.justWoke {
+	if th.justWoke && k == KYield {
+		// further yields of a back-off loop (Gosched called several times in a row before the awaited word
+		// is read again): no-ops; the re-read is still owed
+	} else if th.justWoke {
 		th.justWoke = false
 		if !(k == KLoad && a == th.parkA) {
 			return OInfra, fmt.Sprintf("unsupported yield pattern: thread %d parked after load of %#x, next op %s %#x", t, th.parkA, k, a)
